@@ -349,9 +349,13 @@ def judgeLine (s0 : JState) (line : String) : JState :=
       if v == va && v == vm then s else s.flag s!"reference-reads-differ {line}"
     | ["r", "aa", a, _v, res] => if res == "ok" then useLive (stepEvent s) "add_action" line (jOid a) else s
     | ["r", "cmd", _a, _v, _res] => stepEvent s   -- the issuer may have been destructed by the action it triggered
-    | ["r", "ld", _n, v, k] =>
+    | ["r", "ld", _n, v, k, lv] =>
       let s := stepEvent s
       let s := useLive s "loaded" line (jOid v)
+      let s := useLive s "loaded" line (jOid lv)
+      -- the object load_object() returns is the one find_object() finds under that name
+      let s := if v != "?" && lv != "?" && (jOid lv).isSome && jOid lv != jOid v then
+                 s.flag s!"load-find-disagree load_object returned o{(jOid lv).getD 0}, find_object finds {v}: {line}" else s
       if v == "?" then s   -- the executing object was destructed meanwhile and could not name the result
       else if (k == "1") != (jOid v).isSome then s.flag s!"found-destructed load returned an object that is not live: {line}" else s
     | ["r", "cl", _n, v] => useLive (stepEvent s) "cloned" line (jOid v)
